@@ -341,34 +341,43 @@ def datumTransform (source dest : Datum α) (p : P3 α) : Except String (P3 α) 
 
 def decO (d : Option Dec) : Option α := d.map Dec.toNum
 
-def deriveConstants (json : SR α) : SR α :=
+/-- the two table lookups at the head of `DeriveConstants` (hand model of the source text pinned by
+`ProofsParse.DeriveConstants_shape_pinned`) -/
+def deriveTables (json : SR α) : SR α :=
   let json :=
     if json.datumCode != "" && json.datumCode != "none" then
       match lookupDatum Gen.goDatums json.datumCode with
       | some dd => { json with datumParams := dd.towgs84.map Dec.toNum, ellps := dd.ellipse }
       | none => json
     else json
-  let json :=
-    if gNaN json.a then
-      let row := match lookupEll Gen.goEllipsoids json.ellps with
-        | some r => r
-        | none => (lookupEll Gen.goEllipsoids "WGS84").getD default
-      -- `if ellipse.a != 0 { json.A = ellipse.a }` etc.: an absent table field is the zero value
-      let json := match decO (α := α) row.a with | some v => if ne v 0 then { json with a := some v } else json | none => json
-      let json := match decO (α := α) row.b with | some v => if ne v 0 then { json with b := some v } else json | none => json
-      match decO (α := α) row.rf with | some v => if ne v 0 then { json with rf := some v } else json | none => json
-    else json
-  -- the arithmetic between the table lookups and the axis default: REGENERATED (`Gen.Go.DeriveConstants_core1`)
+  if gNaN json.a then
+    let row := match lookupEll Gen.goEllipsoids json.ellps with
+      | some r => r
+      | none => (lookupEll Gen.goEllipsoids "WGS84").getD default
+    -- `if ellipse.a != 0 { json.A = ellipse.a }` etc.: an absent table field is the zero value
+    let json := match decO (α := α) row.a with | some v => if ne v 0 then { json with a := some v } else json | none => json
+    let json := match decO (α := α) row.b with | some v => if ne v 0 then { json with b := some v } else json | none => json
+    match decO (α := α) row.rf with | some v => if ne v 0 then { json with rf := some v } else json | none => json
+  else json
+
+/-- the arithmetic between the table lookups and the axis default: REGENERATED
+(`Gen.Go.DeriveConstants_core1`); here only the plumbing between the record and the generated `DC` -/
+def deriveCore (json : SR α) : SR α :=
   let r := DeriveConstants_core1 (α := α)
     { A := json.a, A2 := json.a2, B := json.b, B2 := json.b2, E := json.e, Ep2 := json.ep2, Es := json.es,
       K0 := json.k0, Ra := json.ra, Rf := json.rf, sphere := json.sphere }
-  let json := { json with a := r.A, a2 := r.A2, b := r.B, b2 := r.B2, e := r.E, ep2 := r.Ep2, es := r.Es,
-                          k0 := r.K0, ra := r.Ra, rf := r.Rf, sphere := r.sphere }
+  { json with a := r.A, a2 := r.A2, b := r.B, b2 := r.B2, e := r.E, ep2 := r.Ep2, es := r.Es,
+              k0 := r.K0, ra := r.Ra, rf := r.Rf, sphere := r.sphere }
+
+/-- the axis default and the datum (hand model of the pinned source text) -/
+def deriveTail (json : SR α) : SR α :=
   let json := if json.axis == "" then { json with axis := "enu" } else json
   if json.datum.isNone then
     let (d, ps) := getDatum json
     { json with datum := some d, datumParams := ps }
   else json
+
+def deriveConstants (json : SR α) : SR α := deriveTail (deriveCore (deriveTables json))
 
 /-- `Parse` for a PROJ.4 string (named definitions and WKT belong to C20) -/
 def parse (code : String) : Except String (SR α) :=
@@ -428,19 +437,21 @@ def mercInit (this : SR α) : Except String (SR α × Consts α) :=
   match Merc_init (this_A := gnum this.a) (this_B := gnum this.b) (this_K := this.k) (this_K0 := this.k0)
       (this_LatTS := this.latTS) (this_Long0 := this.long0) (this_X0 := this.x0) (this_Y0 := this.y0)
       (this_sphere := this.sphere) with
-  | .ok (K0, long0, x0, y0) =>
-    .ok ({ this with long0 := long0, x0 := x0, y0 := y0 }, { (Consts.nanC : Consts α) with k0 := optNum K0 })
+  | .ok (E, K0, long0, x0, y0) =>
+    -- `E` is the constructor's local `E := math.Sqrt(1 - (B/A)^2)`, which the closures capture (fix: they read it
+    -- instead of `this.E`, as merc.js reads the `this.e` its `init` recomputed)
+    .ok ({ this with long0 := long0, x0 := x0, y0 := y0 }, { (Consts.nanC : Consts α) with k0 := optNum K0, e := E })
   | .error e => .error e
 
 /-- forward closure of `Merc`: the REGENERATED `Gen.Go.Merc_forward` applied to what the closure reads -/
 def mercFwd (this : SR α) (c : Consts α) (lon lat : α) : Except String (α × α) :=
-  Merc_forward (K0 := c.k0) (this_A := aS this) (this_E := this.e) (this_Long0 := gnum this.long0)
+  Merc_forward (E := c.e) (K0 := c.k0) (this_A := aS this) (this_Long0 := gnum this.long0)
     (this_X0 := gnum this.x0) (this_Y0 := gnum this.y0) (this_sphere := this.sphere) lon lat
 
 
 /-- inverse closure of `Merc` (regenerated) -/
 def mercInv (this : SR α) (c : Consts α) (x y : α) : Except String (α × α) :=
-  Merc_inverse (K0 := c.k0) (this_A := aS this) (this_E := this.e) (this_Long0 := gnum this.long0)
+  Merc_inverse (E := c.e) (K0 := c.k0) (this_A := aS this) (this_Long0 := gnum this.long0)
     (this_X0 := gnum this.x0) (this_Y0 := gnum this.y0) (this_sphere := this.sphere) x y
 
 
